@@ -22,3 +22,27 @@ vg_tl2x() {
   done
   printf 'package main\n\nimport (\n%s)\n' "$imports" > "$M/cmd/driver/glue_imports_x.go"
 }
+
+# vg_tl2n <cfg>...: TL2-NATIVE universe uni.UniverseTL2N() (TL2 source text: reserved `_:T` fields at every position of a
+# wide struct, packed bit arrays, optional empty struct) as option sets n1 (plain) / n2 (with []byte variants).
+# Must run after vg_tl2x (it appends to the same import file).
+vg_tl2n() {
+  local M="$VERIF_SCRATCH/mod" cfg flags imports=""
+  "$VERIF_SCRATCH/unigen_tl2x" -native -out "$VERIF_SCRATCH/schema/n.tl2" >/dev/null || return 2
+  for cfg in "$@"; do
+    flags="--tl2WhiteList=* --generateRandomCode"
+    [ "$cfg" = n2 ] && flags="$flags --generateByteVersions=*"
+    # shellcheck disable=SC2086
+    "$VERIF_SCRATCH/tl2gen" --language=go $flags --outdir="$M/gen_$cfg" --pkgPath="exp/gen_$cfg/tl" \
+        --basicPkgPath=github.com/VKCOM/tl/pkg/basictl "$VERIF_SCRATCH/schema/n.tl2" > "$VERIF_SCRATCH/gen_$cfg.log" 2>&1 || {
+      echo "HARNESS-ERROR: tl2gen rejected the TL2-native universe for option set $cfg (see below)" >&2
+      grep -v "warning" "$VERIF_SCRATCH/gen_$cfg.log" | tail -20 >&2; return 2; }
+    mkdir -p "$M/glue_$cfg"
+    local bytesimp="" hasbytes=false
+    [ -d "$M/gen_$cfg/factory_bytes" ] && { bytesimp="_ \"exp/gen_$cfg/factory_bytes\""; hasbytes=true; }
+    sed -e "s/CFG/$cfg/g" -e "s/HASBYTES/$hasbytes/" -e "s#BYTESIMPORT#$bytesimp#" "$VG/glue.go.tmpl" > "$M/glue_$cfg/glue.go"
+    imports="$imports	_ \"exp/glue_$cfg\"
+"
+  done
+  printf 'package main\n\nimport (\n%s)\n' "$imports" > "$M/cmd/driver/glue_imports_n.go"
+}
